@@ -29,16 +29,21 @@ REPO_BINS = ['sccache']
 THEOREMS = ['C12_identity_is_current', 'C12_no_cross_binary_results', 'C12_swap_back',
             'C12_distinct_binaries_never_share', 'C12_same_mtime_refuted', 'C12_shared_entry_refuted']
 ASSUMPTIONS = [
-    'premise of the property, explicit as the boolean `mtime_tracks_content`: two requests naming the same compiler path '
-    'that see the same mtime there (through links, as stat does) see the same bytes there; C12_same_mtime_refuted shows '
-    'it is necessary (documented limit of mtime re-validation, incl. a link retargeted between two differently named '
-    'binaries with equal mtimes)',
+    'premise of the property, explicit as the boolean `wf_history` (= `mtime_tracks_content` on the recorded requests): two '
+    'requests naming the same compiler path that see the same mtime there (through links, as stat does) see the same bytes '
+    'there; C12_same_mtime_refuted shows it is necessary (documented limit of mtime re-validation, incl. a link retargeted '
+    'between two differently named binaries with equal mtimes)',
     'compiler_info is atomic: the window between the `metadata` call and the digest read is NOT modelled',
     'the identity digest (file digest + version string) is a function `detect` of the bytes at the path; `detect` and the key '
-    'hash `H` are collision-free (named hypotheses detect_collision_free / H_collision_free)',
+    'hash `H` do not collide on the binaries and sources the history touches (boolean `collision_free_in_play`; not needed '
+    'for C12_identity_is_current)',
     'a binary that is not recognised as a compiler also fails to preprocess; a recognised one compiles',
-    'links only in the final path component; rustup proxies (rustc only), the dist toolchain archive, result-cache eviction '
-    'and concurrent requests are left out',
+    'links only in the final path component (directories are plain); the dist toolchain archive (dist_info is always None '
+    'without a dist client), result-cache eviction and concurrent requests are left out',
+    'the rustup-proxy branch of compiler_info (compiler_proxies; only rustc registers proxies, and ~/.cargo/bin/rustc IS a '
+    'rustup proxy in this sandbox) is NOT in the Coq model: on the C/C++ path the proxy map stays empty.  It is exercised '
+    'by the fixed e2e scenario `e2e-rustup` only.  For rustc the identity is (rustc -vV text, digests of the sysroot\'s '
+    'shared libraries), not the bytes of the rustc executable: wrappers around one toolchain share results by design',
 ]
 TRUSTED = [
     'harness/src/bin/c12.rs and the e2e driver in lib/props/c12.py: the shell compilers / gcc wrappers, their invocation log, '
@@ -271,7 +276,7 @@ def neighbours(case):
 
 
 def gen_inproc(rng, tier):
-    n = 12000 if tier == 'thorough' else 1400
+    n = 24000 if tier == 'thorough' else 2000
     out = gen_scenarios()
     for i in range(n):
         out.append(gen_history(rng, 24, adversarial=(i % 4 == 3)))
@@ -402,8 +407,10 @@ def e2e_history(binp, case, idx):
             if t == b'swap':
                 p = P(op[1], op[2])
                 tmp = p + '.tmp'
-                open(tmp, 'w').write(WRAPPER % {'id': op[3], 'log': log})
-                os.chmod(tmp, 0o755)
+                # written by a child process: this driver is multi-threaded, and a file it had open for writing
+                # while another thread forks would be ETXTBSY for whoever executes it next
+                subprocess.run(['/bin/sh', '-c', 'cat > "$0" && chmod 755 "$0"', tmp],
+                               input=(WRAPPER % {'id': op[3], 'log': log}).encode(), check=True)
                 m = op[4]
                 ns = (BASE + m // 4) * 10**9 + (m % 4) * 250000000
                 os.utime(tmp, ns=(ns, ns))
@@ -474,8 +481,123 @@ def e2e_history(binp, case, idx):
     return events, problems
 
 
+RUST_WRAPPER = r"""#!/bin/sh
+case "$1" in +*) echo "error: no such toolchain" >&2; exit 1;; --print=sysroot) echo %(sys)s; exit 0;; esac
+exec %(real)s --cfg %(cfg)s "$@"
+"""
+RUST_SRC = """#[cfg(wrapper_b)] pub fn f() -> u32 { 2222 }
+#[cfg(wrapper_c)] pub fn f() -> u32 { 3333 }
+#[cfg(not(any(wrapper_b, wrapper_c)))] pub fn f() -> u32 { 1111 }
+"""
+
+
+def e2e_rustup(binp):
+    """The rustup-proxy branch of compiler_info (not in the Coq model), as a fixed scenario on the real server:
+    a path that first holds a rustup proxy, then toolchain B, then toolchain C, then B again, then the proxy again
+    (B, C = wrappers around the real rustc that flip a cfg and announce their own sysroot, i.e. different identity).
+    -> (list of (what, outcome, same_as_direct), problems) or (None, [reason]) when rustup is not usable here."""
+    rustup = shutil.which('rustup')
+    if not rustup:
+        return None, ['no rustup in PATH']
+    renv = {'PATH': os.environ.get('PATH', '/usr/bin:/bin'), 'HOME': os.path.expanduser('~'),
+            'RUSTUP_HOME': os.environ.get('RUSTUP_HOME', os.path.expanduser('~/.rustup')),
+            'CARGO_HOME': os.environ.get('CARGO_HOME', os.path.expanduser('~/.cargo'))}
+    try:
+        real = subprocess.run([rustup, 'which', 'rustc'], env=renv, stdout=subprocess.PIPE, stderr=subprocess.PIPE,
+                              timeout=60).stdout.decode().strip()
+    except Exception:
+        real = ''
+    if not real or not os.path.exists(real):
+        return None, ['rustup which rustc gave nothing']
+    root = '/dev/shm/c12rust-%d' % os.getpid()
+    shutil.rmtree(root, ignore_errors=True)
+    os.makedirs(os.path.join(root, 'x'))
+    cwd = os.path.join(root, 'w')
+    os.makedirs(cwd)
+    cache = os.path.join(root, 'cache')
+    env = dict(renv)
+    env.update({'SCCACHE_DIR': cache, 'SCCACHE_IDLE_TIMEOUT': '120', 'TMPDIR': root})
+    for n in 'abc':
+        open(os.path.join(cwd, n + '.rs'), 'w').write(RUST_SRC)
+    px = os.path.join(root, 'x', 'rustc')
+    os.symlink(os.path.realpath(rustup), os.path.join(root, 'x', 'rustup'))
+
+    def install(what):
+        try:
+            os.unlink(px)
+        except OSError:
+            pass
+        if what == 'proxy':
+            os.symlink('rustup', px)
+            return
+        cfg, day = {'B': ('wrapper_b', 1), 'C': ('wrapper_c', 2)}[what]
+        sysd = os.path.join(root, 'sys_' + what, 'lib')
+        os.makedirs(sysd, exist_ok=True)
+        open(os.path.join(sysd, 'librustc_driver-%s.so' % what), 'w').write('driver of ' + what)
+        subprocess.run(['/bin/sh', '-c', 'cat > "$0" && chmod 755 "$0"', px],
+                       input=(RUST_WRAPPER % {'sys': os.path.dirname(sysd), 'real': real, 'cfg': cfg}).encode(), check=True)
+        ns = (BASE + 86400 * day) * 10**9
+        os.utime(px, ns=(ns, ns))
+
+    def sccache(*a):
+        return subprocess.run([binp] + list(a), env=env, cwd=cwd, stdout=subprocess.PIPE, stderr=subprocess.PIPE, timeout=300)
+
+    def counters():
+        st = json.loads(sccache('--show-stats', '--stats-format=json').stdout.decode())['stats']
+        return sum(st['cache_hits']['counts'].values()), sum(st['cache_misses']['counts'].values())
+
+    steps = [('proxy', 'a'), ('proxy', 'c'), ('B', 'b'), ('C', 'b'), ('B', 'b'), ('proxy', 'a')]
+    obs = []
+    problems = []
+    try:
+        for attempt in range(5):
+            env['SCCACHE_SERVER_PORT'] = str(free_port())
+            r = sccache('--start-server')
+            if r.returncode == 0:
+                break
+        else:
+            return None, ['server did not start: ' + r.stderr.decode()[-300:]]
+        prev = counters()
+        seen = set()
+        for i, (what, src) in enumerate(steps):
+            install(what)
+            for d in ('out', 'dout'):
+                shutil.rmtree(os.path.join(cwd, d), ignore_errors=True)
+                os.makedirs(os.path.join(cwd, d))
+            args = ['--crate-type', 'lib', '--crate-name', src, src + '.rs', '--emit=dep-info,link']
+            r = sccache(px, *args, '--out-dir', 'out')
+            subprocess.run([px] + args + ['--out-dir', 'dout'], env=env, cwd=cwd, stdout=subprocess.PIPE, stderr=subprocess.PIPE, timeout=300)
+            now = counters()
+            dh, dm = now[0] - prev[0], now[1] - prev[1]
+            prev = now
+            res = 'hit' if (dh, dm) == (1, 0) else 'miss' if (dh, dm) == (0, 1) else 'stats_%d_%d' % (dh, dm)
+            try:
+                same = open(os.path.join(cwd, 'out', 'lib%s.rlib' % src), 'rb').read() == \
+                    open(os.path.join(cwd, 'dout', 'lib%s.rlib' % src), 'rb').read()
+            except OSError:
+                same = False
+            obs.append((what, src, res, same))
+            where = 'step %d (%s at the path, crate %s)' % (i, what, src)
+            if r.returncode != 0:
+                problems.append('%s: sccache failed: %s' % (where, r.stderr.decode()[-200:]))
+            elif not same:
+                problems.append('%s: the library handed back differs from what the compiler now at the path produces (%s)' % (where, res))
+            want = 'hit' if (what, src) in seen else 'miss'
+            if res != want and r.returncode == 0:
+                problems.append('%s: expected a cache %s, observed %s' % (where, want, res))
+            seen.add((what, src))
+    finally:
+        try:
+            sccache('--stop-server')
+        except Exception:
+            pass
+        kill_servers(cache)
+        shutil.rmtree(root, ignore_errors=True)
+    return obs, problems
+
+
 def gen_e2e(rng, tier):
-    n = 160 if tier == 'thorough' else 22
+    n = 400 if tier == 'thorough' else 60
     out = [c for c in gen_scenarios()[:9]]
     for i in range(n):
         out.append(gen_history(rng, 16, adversarial=False, only_live=True, only_good=True))
@@ -535,5 +657,38 @@ def extra(rep, known):
                     'exec /usr/bin/gcc and append a stamp; histories of mv / ln -sfn / touch / rm / compile with the premise '
                     'holding by construction; per request: object == direct run of the wrapper in place, stats delta == '
                     'model hit/miss, detection re-run == model')
+    # the rustup-proxy branch (left out of the Coq model): fixed regression scenario for S22
+    t1 = time.time()
+    obs, problems = e2e_rustup(binp)
+    if obs is None:
+        rep.notes.append('rustup scenario not run: ' + '; '.join(problems))
+    else:
+        rep.evaluations += 1
+        rep.traces += 1
+        for v in problems[:3]:
+            rep.violation('property', 'e2e-rustup', 'proxy a; proxy c; B b; C b; B b; proxy a', v)
+        rep.legs['e2e-rustup'] = dict(steps=[list(o) for o in obs], violations=len(problems), wall_s=round(time.time() - t1, 1))
+        rep.oblige('e2e:rustup-proxy-scenario', not problems, '; '.join(problems)[:1500] if problems else
+                   '%d steps: every library equals the direct run, hit exactly when the same compiler built the crate before' % len(obs))
+        pipeline.log('leg e2e-rustup: %s, %d problems, %.1fs' % (' '.join('%s/%s=%s' % (o[0], o[1], o[2]) for o in obs), len(problems), time.time() - t1))
     rep.oblige('correspondence:e2e', dis == 0, '%d of %d histories disagree' % (dis, len(cases)) if dis else '%d histories, %d requests agree' % (len(cases), nreq))
     pipeline.log('leg e2e: %d histories, %d requests, %d disagreements, %d violations, %.1fs' % (len(cases), nreq, dis, nviol, time.time() - t0))
+
+
+def check(tier, seed, replay=None):
+    """standard pipeline; a replay file of the rustup scenario (not an Sx history) is re-run directly."""
+    if replay:
+        data = json.load(open(replay))
+        if data.get('leg') == 'e2e-rustup':
+            ok, out = pipeline.build_repo_bins(REPO_BINS)
+            if not ok:
+                print(out[-2000:])
+                return 2
+            obs, problems = e2e_rustup(pipeline.repo_bin('sccache'))
+            print('steps:  ', obs)
+            print('monitor:', problems or 'no property violation')
+            if problems:
+                print('VIOLATION property=%s replay=%s' % (ID, replay))
+                return 1
+            return 0
+    return pipeline.standard_check(__import__(__name__, fromlist=['x']), tier, seed, replay)
